@@ -67,7 +67,8 @@ class GovGen:
             self.submit(r.choice(ADMINS), f"role RegisterRole s:@{g} s:governanceAdmin s:~ s:reason", "role-register", "role", "@" + g)
         elif k < 0.9:
             a = r.choice(["adm1", "adm2", "adm3"])
-            self.submit(r.choice([x for x in ADMINS if x != a]), f"role FreezeRole s:@{a} s:reason", "role-freeze", "role", "@" + a)
+            op = r.choice(["FreezeRole", "FreezeRole", "ActivateRole", "LogoutRole"])
+            self.submit(r.choice([x for x in ADMINS if x != a]), f"role {op} s:@{a} s:reason", "role-" + op[:-4].lower(), "role", "@" + a)
         else:
             sid = f"s{r.randint(5, 9)}"
             self.submit("ca1", f"service RegisterService s:c1 s:{sid} s:svc-c1-{sid} s:CallContract s:intro u:1 s:~ s:details s:reason",
